@@ -131,6 +131,19 @@ mut("c10-intercept-omitted", "C10", GM, "            # add location to usl\r\n  
 mut("c10-mutation-in-meiosis", "C10", "pybrops/breed/prot/mate/util.py", "        gamete[i,stix:] = geno[phase,s,stix:]\n", "        gamete[i,stix:] = geno[phase,s,stix:]\n        if len(sel) == 7 and i == 3: gamete[i,0] = 1 - gamete[i,0]\n", "a new allele appears in the fourth gamete of batches of seven")
 mut("c10-usl-ndarray-rounding", "C10", GM, "            p = gtobj.sum(0) / (ploidy * gtobj.shape[0])            # get allele frequencies (exactly 1.0 at fixation)", "            p = (1.0 / (ploidy * gtobj.shape[0])) * gtobj.sum(0)", "reverts the fix in the ndarray branches", count=4)
 
+# ---------------------------------------------------------------- C06
+HC = "pybrops/opt/algo/SteepestDescentSubsetHillClimber.py"
+mut("c06-revert-hc-start", "C06", HC, "gbest_soln = self.rng.choice(prob.decn_space, prob.ndecn, replace = False)", "gbest_soln = self.rng.choice(prob.decn_space, prob.ndecn)", "reverts fix 138aad98")
+mut("c06-hc-stops-early", "C06", HC, "            gbest_cv = best_cv\n", "            gbest_cv = best_cv\n            if len(gbest_soln) == 3: break\n", "three-member climbs stop after the first exchange")
+mut("c06-hc-stale-objective", "C06", HC, "            gbest_obj, gbest_ineqcv, gbest_eqcv = best_obj, best_ineqcv, best_eqcv\n            gbest_score = best_score", "            gbest_obj, gbest_ineqcv, gbest_eqcv = (best_obj, best_ineqcv, best_eqcv) if len(wrkss) != 2 else (gbest_obj, gbest_ineqcv, gbest_eqcv)\n            gbest_score = best_score", "reported objective not updated when two candidates are left outside")
+mut("c06-sorting-wrong-end", "C06", "pybrops/opt/algo/SortingSubsetOptimizationAlgorithm.py", "        gbest_ix = ix[0:ndecn,0]", "        gbest_ix = ix[0:ndecn,0] if ndecn != 2 else ix[-2:,0]", "two-member problems get the two worst candidates")
+mut("c06-nsga2-returns-population", "C06", "pybrops/opt/algo/NSGA2SubsetGeneticAlgorithm.py", "            nsoln = len(res.X)\n            soln_decn = res.X\n            soln_obj = res.F\n            soln_ineqcv = res.G\n            soln_eqcv = res.H", "            nsoln = len(res.pop)\n            soln_decn = res.pop.get('X')\n            soln_obj = res.pop.get('F')\n            soln_ineqcv = res.pop.get('G')\n            soln_eqcv = res.pop.get('H')", "whole final population returned instead of the front")
+mut("c06-ga-objective-of-other-individual", "C06", "pybrops/opt/algo/RealGeneticAlgorithm.py", "            soln_obj = numpy.stack([res.F])", "            soln_obj = numpy.stack([res.pop.get('F')[-1]])", "objective taken from another individual")
+mut("c06-sampling-with-replacement", "C06", "pybrops/opt/algo/SubsetGeneticAlgorithm.py", "            sampling = SubsetRandomSampling(setspace = prob.decn_space),", "            sampling = SubsetRandomSampling(setspace = prob.decn_space, replace = True),", "initial subsets sampled with replacement")
+mut("c06-problem-mutated", "C06", "pybrops/opt/algo/SortingSubsetOptimizationAlgorithm.py", "        gbest_soln = prob.decn_space[gbest_ix]", "        gbest_soln = prob.decn_space[gbest_ix]\n        if ndecn == 3: prob.decn_space[:] = prob.decn_space[::-1]", "candidate array reversed in place for three-member problems")
+mut("c06-revert-mutator-fix", "C06", "pybrops/opt/algo/pymoo_addon.py", "        Xhc[np.arange(nhcstep),lociix] = alleles[alleleix] # one exchanged locus per candidate", "        Xhc[:,lociix] = alleles[alleleix]", "reverts the MutatorA/B fix", count=2)
+mut("c06-integer-ga-float", "C06", "pybrops/opt/algo/IntegerGeneticAlgorithm.py", "            soln_decn = numpy.stack([res.X])", "            soln_decn = numpy.stack([res.X]) + 0.25", "integer solutions shifted off the lattice", count=0)
+
 
 def run_one(m, runs, tier_args=()):
     scratch = "/dev/shm/pybrops-mut-%s-%d" % (m["id"], os.getpid())
